@@ -300,7 +300,8 @@ C04Single(cfg, pl) ==
 
 C04Pair(cfg, p, q) ==      \* p earlier, q later playlist of one stream (both served)
   /\ q.msn >= p.msn                                                        \* MSNMonotone
-  /\ q.msn <= p.msn + Len(p.ent)                                           \* head removal only
+  \* (no bound on q.msn - p.msn: one Write of several audio access units may rotate more segments than the window holds, so two
+  \*  successive observations need not overlap; what overlaps must be identical, which is "removed from the head, appended at the tail")
   /\ \A i \in 1..Len(p.ent) :                                              \* SameMSNSameEntry + tail append
         LET j == p.msn + i - q.msn IN
         (j >= 1) => (j <= Len(q.ent) /\ EntKey(q.ent[j]) = EntKey(p.ent[i]))
